@@ -22,7 +22,7 @@ fn mix(seed: u64, world: u8, cfg: &Cfg, worker: u64) -> u64 {
     let mut h = H128::new();
     h.u64(seed);
     h.u8(world);
-    h.bytes(&[cfg.flavour, cfg.mode, cfg.x, cfg.y, cfg.k]);
+    h.bytes(&[cfg.flavour, cfg.mode, cfg.x, cfg.y, cfg.k, cfg.sw]);
     h.u64(worker);
     h.finish() as u64
 }
